@@ -40,7 +40,16 @@
 (***************************************************************************)
 EXTENDS Naturals, Integers, Sequences, FiniteSets, TLC
 
-CONSTANTS Atoms,          \* [1..N -> [ins, outs, fee, shift, lock, nrd]]
+CONSTANTS Atoms,          \* [1..N -> [ins, outs, fee, shift, lock, nrd, feat, kord]]
+                          \*   feat: "plain" - an ordinary transaction; "cbout" - its output carries the COINBASE feature
+                          \*         bit; "cbker" - its kernel is a COINBASE kernel (fee 0). Only a block's reward may carry
+                          \*         those: such a transaction fails standalone validation (Transaction::validate ->
+                          \*         verify_features), whatever else is right about it (sums, proofs, signature all are:
+                          \*         the output feature byte is covered by nothing)
+                          \*   kord: where the kernel of this atom sorts among the kernels of an aggregate (kernels are sorted
+                          \*         by hash): 0 = left to chance, else atoms with a smaller kord sort first. NOT a parameter
+                          \*         of any rule below - the lock height of a transaction is the MAXIMUM over its kernels
+                          \*         wherever they sit; the replay builds the kernels so that the order is the stated one
           DupCommits, DupCreators, DupSpenders,   \* derived from Atoms (see the ASSUME below)
           Subs,           \* submittable transactions: a set of sets of atom ids
           Trunk,          \* head height at start; coinbases 0..Trunk are unspent
@@ -120,6 +129,8 @@ LockOf(P) == MaxOf({Atoms[a].lock : a \in P})                \* Transaction::loc
 WeightOf(e) == Cardinality(e.ins) + 21 * Cardinality(e.outs) + 3 * Cardinality(e.k)
 Underpaid(e) == PaidOf(e.k) < WeightOf(e) * FeeBase          \* shifted_fee < accept_fee
 \* a body that is a real, balanced transaction: exactly the aggregate of its kernels' atoms
+\* TransactionBody::verify_features: no output and no kernel of a transaction is flagged COINBASE
+FeaturesOK(P) == \A a \in P : Atoms[a].feat = "plain"
 WellFormed(e) == e.k # {} /\ Consistent(e.k) /\ e.ins = TxOf(e.k).ins /\ e.outs = TxOf(e.k).outs
 
 ----------------------------------------------------------------------------
@@ -146,11 +157,12 @@ JointOK(P, u) == IF Plain(P) THEN /\ Consistent(P)
                                               /\ (n = 1 => c \notin u)
                                               /\ (n = -1 => c \in u)
 Disjoint(s) == \A i, j \in 1..Len(s) : i < j => s[i] \cap s[j] = {}
-JointSeq(s, u) == Disjoint(s) /\ JointOK(AtomsIn(s), u)
+JointSeq(s, u) == Disjoint(s) /\ JointOK(AtomsIn(s), u) /\ FeaturesOK(AtomsIn(s))    \* (Transaction::validate of the aggregate)
 
 \* what the chain's block pipeline demands of a block body made of the atoms B
 ValidBlock(B, ch) ==
   /\ JointOK(B, Utxo(ch))
+  /\ FeaturesOK(B)              \* Block::verify_coinbase: the only coinbase output / kernel is the reward (CoinbaseSumMismatch)
   /\ \A c \in TxOf(B).ins : MatureAt(c, HeightOf(ch) + 1)
   /\ LockOf(B) <= HeightOf(ch) + 1
   /\ \A a \in B : Atoms[a].nrd => NrdEnabled /\ HeightOf(ch) + 1 >= NrdHeight   \* Block::validate: NRDKernelPreHF3 / not enabled
@@ -192,7 +204,8 @@ Rej(why) == [res |-> "reject", why |-> why, tp |-> txpool, sp |-> stempool, ca |
 \* the checks common to both paths after acceptability: validate, lock height, locate_spends, maturity.
 \* Returns "" when all pass, else the reason.
 Screen2(e, poolAtoms, withLock) ==
-  IF ~WellFormed(e) THEN "invalid"
+  IF ~FeaturesOK(e.k) THEN "invalid_features"       \* Transaction::validate starts with verify_features
+  ELSE IF ~WellFormed(e) THEN "invalid"
   ELSE IF WeightOf(e) > MaxTxWeight THEN "weight"
   ELSE IF withLock /\ LockOf(e.k) > Height + 1 THEN "locked"
   ELSE LET fromUtxo == e.ins \ TxOf(poolAtoms).outs
